@@ -1,5 +1,46 @@
 (** C16 — Orientation puts a molecule in a canonical inertial frame without distorting it.
-    Property theorems only.  [orient_atoms eigh atoms] is Model/Orient.v (hand-written, the code's order);
+    Property theorems only.
+
+    CLAUSE MAP (statement of C16 in properties.jsonl, clause by clause).  "internal result" = what
+    Molecule._orient_molecule_internal returns ([orient_internal_gen], Gen/OrientBody.v, translated from the source and proved
+    equal to the model [orient_atoms] for all inputs: C16_generated_body_is_model); "stored" = what the public entry points keep,
+    float_prep of the internal result ([orient_stored_gen], Gen/OrientStore.v, translated from float_prep and the `if orient:`
+    branch of Molecule.__init__; the translator also pins that orient_molecule is Molecule(orient=True, **self.dict()) and that
+    from_data / from_file / get_fragment only pass `orient` on).
+    1. every interatomic distance preserved ............ C16_isometry (all atoms counts, all masses, any field; internal result).
+                                                         Stored: only up to the 8-decimal rounding - oracle (1e-7), no theorem.
+    2. all non-geometric fields preserved .............. masses: C16_masses_untouched.  Other fields do not occur in the model: the
+                                                         translator fails unless only self.geometry / self.masses are consulted and
+                                                         orient_molecule hands every field to the constructor; the oracle compares
+                                                         every field of Molecule.dict() on each case (correspondence/oracle only).
+    3. centre of mass at the origin .................... C16_com_at_origin (total mass <> 0; individual masses arbitrary, so ghost
+                                                         atoms - which keep their masses - and isotopes are covered).
+    4. inertia tensor diagonal, moments ascending ...... C16_inertia_transforms, C16_inertia_diagonal_ascending (tensor generated
+                                                         from Molecule._inertial_tensor; eigh constrained only by eigh_ok).
+    5. sign convention (first atom off each plane > 0) . internal result: C16_phase_convention, C16_phase_convention_orient, with
+                                                         "off the plane" = |coordinate| >= 1e-8 as in the source.
+                                                         Stored molecule: C16_stored_sign_convention (hypothesis: every atom listed
+                                                         earlier has |coordinate| < 1e-8) and C16_stored_first_nonzero_positive;
+                                                         the clause as stated is FALSE of the stored molecule in the flush zone
+                                                         1e-8 <= |coordinate| < 5^-9: C16_stored_sign_convention_flush_zone_refuted
+                                                         (+ C16_ex_flush_zone_run; known finding C16-phase-flush-zone).
+    6. rigidly moved copies, distinct moments -> same .. C16_frame_unique (any orthogonal Rm, proper or not, any translation; exact
+       coordinates within the geometry rounding          on the internal result, columns equal or entirely below 1e-8 and opposite);
+                                                         C16_mirror_image_same_frame; without the distinct-moments hypothesis the
+                                                         promise is only "up to one orthogonal matrix commuting with the spectrum":
+                                                         C16_frame_unique_up_to_eigenspace (nothing more is true: eigh may return
+                                                         any basis of a degenerate eigenspace).  "Within the rounding" on the stored
+                                                         geometries: oracle only (tolerance amplified by the eigenvector
+                                                         conditioning) - the rounding of the first result is not modelled.
+    7. orienting twice changes nothing ................. C16_orient_idempotent (distinct moments; second orientation applied to the
+                                                         internal result), C16_orient_twice_up_to_eigenspace (any moments).
+                                                         orient_molecule().orient_molecule() re-orients the STORED (rounded, flushed)
+                                                         geometry: oracle only; in the flush zone it can flip a column (same known
+                                                         finding).
+    Quantifier: all numbers of atoms (lists), all masses with non-zero total; proper AND improper motions; linear / planar /
+    symmetric tops are covered by clauses 1-5 and by the up-to-eigenspace forms of 6-7.
+
+    [orient_atoms eigh atoms] is Model/Orient.v (hand-written, the code's order);
     [inertia_tensor] is Gen/Inertia.v, regenerated from Molecule._inertial_tensor on every run;
     [eigh] stands for np.linalg.eigh and is constrained only through [eigh_ok] on the one matrix it is
     applied to (orthogonal eigenvector matrix, A V = V diag(w), w ascending) — the same predicate is
@@ -8,7 +49,7 @@
 From Coq Require Import List Bool ZArith Reals QArith Lra.
 Require Import QV.Common.Outcome QV.Common.Geo3 QV.Common.Geo3Facts QV.Common.Geo3Sum QV.Common.Geo3R QV.Common.Geo3Q.
 Require Import QV.Gen.Inertia QV.Model.Orient QV.Proofs.Orient QV.Proofs.OrientR QV.Proofs.OrientUniq QV.Proofs.OrientGen QV.Proofs.OrientDeg.
-Require Import QV.Common.Geo3Loop QV.Gen.OrientBody.
+Require Import QV.Common.Geo3Loop QV.Gen.OrientBody QV.Gen.OrientStore QV.Model.OrientCheck QV.Proofs.OrientStore.
 Import ListNotations.
 
 (** * Part A: any field *)
@@ -109,6 +150,28 @@ Example C16_ex_chirality_inverted :
      end = true.
 Proof. repeat split; vm_compute; reflexivity. Qed.
 
+
+(** the flush zone on a whole molecule, through the generated body AND the generated store, exactly over Q: five unit masses already in
+    their inertial frame, atoms 0 and 1 lying 2e-7 off the plane normal to the lightest axis.  The internal result puts them at
+    +2e-7 (they decide the phase), the stored geometry has them at 0.0 and the first atom visibly off that plane at -3.0000002. *)
+Definition fz_e : Q := 2 # 10000000.
+Definition fz_atoms : list (watom QK) :=
+  [((1, 0, fz_e), 1); ((-1, 0, fz_e), 1); ((0, 2, -3 - fz_e), 1); ((0, -2, -3 - fz_e), 1); ((0, 0, 6), 1)]%Q.
+Definition fz_lam : vec3 QK :=
+  (10, 2 * (1 + fz_e * fz_e) + 2 * ((3 + fz_e) * (3 + fz_e)) + 36, 2 * (fz_e * fz_e) + 2 * (4 + (3 + fz_e) * (3 + fz_e)) + 36)%Q.
+Definition fz_eigh : mat3 QK -> vec3 QK * mat3 QK := fun _ => (fz_lam, ((0, 0, 1), (0, 1, 0), (1, 0, 0))%Q).
+Example C16_ex_flush_zone_run :
+  eigh_ok_b (inertia_tensor QK (centre QK fz_atoms)) fz_lam (snd (fz_eigh (mident QK))) = true
+  /\ match orient_internal_gen QK fz_eigh (map fst fz_atoms) (map snd fz_atoms) with
+     | Ok g => list_Qeqb (map vx g) [fz_e; fz_e; -3 - fz_e; -3 - fz_e; 6]%Q
+     | Err _ => false
+     end = true
+  /\ match orient_stored_gen QK fz_eigh q_around default_geometry_noise (map fst fz_atoms) (map snd fz_atoms) with
+     | Ok g => list_Qeqb (map vx g) [0; 0; -30000002 # 10000000; -30000002 # 10000000; 6]%Q
+     | Err _ => false
+     end = true.
+Proof. repeat split; vm_compute; reflexivity. Qed.
+
 (** * Part B: real numbers *)
 Local Open Scope R_scope.
 
@@ -203,6 +266,70 @@ Proof.
   apply (C16_frame_unique eigh1 eigh2 atoms mirror_z (0, 0, 0) r1 r2 O O' HM K1 K2 D01 D12 H1 H2).
 Qed.
 
+
+(** * The stored geometry (float_prep after the internal result; [np_around 8] is np.around(., 8), assumed only to be within half a
+    unit, 0.5e-8, of its argument) *)
+
+(** the public entry points store float_prep of the model's geometry (generated store o generated body = store o model) *)
+Theorem C16_generated_store_is_model : forall (eigh : mat3 RK -> vec3 RK * mat3 RK) (np_around : Z -> R -> R) (gn : Z) (atoms : list (watom RK)),
+  orient_stored_gen RK eigh np_around gn (map fst atoms) (map snd atoms)
+  = obind (orient_atoms RK eigh atoms) (fun r => Ok (map (vmap (float_prep_entry_gen RK np_around gn)) (map fst r))).
+Proof. exact orient_stored_gen_is_model. Qed.
+
+(** sign convention on the stored molecule: if every atom listed before v is on the plane for the phase loop (|u| < 1e-8) and v is
+    stored non-zero, then those atoms are all stored as 0.0 and v is stored positive *)
+Theorem C16_stored_sign_convention : forall (np_around : Z -> R -> R), around_ok (np_around geometry_noise_exp) ->
+  forall eigh (atoms r : list (watom RK)) (proj : vec3 RK -> R),
+  orient_atoms RK eigh atoms = Ok r -> (proj = vx \/ proj = vy \/ proj = vz) ->
+  forall pre v post,
+    map proj (map fst r) = pre ++ v :: post ->
+    (forall u, In u pre -> Rabs u < noise RK) -> float_prep_entry_gen RK np_around geometry_noise_exp v <> 0 ->
+    (forall u, In u pre -> float_prep_entry_gen RK np_around geometry_noise_exp u = 0)
+    /\ 0 < float_prep_entry_gen RK np_around geometry_noise_exp v.
+Proof. exact stored_sign_convention_R. Qed.
+
+(** read off the stored column: its first non-zero entry is positive PROVIDED no earlier atom was in the flush zone (at or above the
+    phase threshold 1e-8 in the internal result, yet stored as 0.0) *)
+Theorem C16_stored_first_nonzero_positive : forall (np_around : Z -> R -> R), around_ok (np_around geometry_noise_exp) ->
+  forall eigh (atoms r : list (watom RK)) (proj : vec3 RK -> R),
+  orient_atoms RK eigh atoms = Ok r -> (proj = vx \/ proj = vy \/ proj = vz) ->
+  forall pre v post,
+    map proj (map fst r) = pre ++ v :: post ->
+    (forall u, In u pre -> float_prep_entry_gen RK np_around geometry_noise_exp u = 0) ->
+    float_prep_entry_gen RK np_around geometry_noise_exp v <> 0 ->
+    (forall u, In u pre -> ~ (noise RK <= Rabs u)) ->
+    0 < float_prep_entry_gen RK np_around geometry_noise_exp v.
+Proof. exact stored_first_nonzero_positive. Qed.
+
+(** without that proviso the clause is false of the stored molecule, whatever the rounding function: a column whose first atom sits
+    at +2e-7 (it decides the phase, then is stored as 0.0) and whose second atom, at -3, is the first one visibly off the plane *)
+Theorem C16_stored_sign_convention_flush_zone_refuted : forall (np_around : Z -> R -> R), around_ok (np_around geometry_noise_exp) ->
+  exists rows : list (vec3 RK),
+    let col := map vx (apply_phase RK (noise RK) rows) in
+    exists u v, col = [u; v] /\ noise RK <= Rabs u
+                /\ float_prep_entry_gen RK np_around geometry_noise_exp u = 0
+                /\ float_prep_entry_gen RK np_around geometry_noise_exp v <> 0
+                /\ float_prep_entry_gen RK np_around geometry_noise_exp v < 0.
+Proof. exact stored_sign_convention_flush_zone_refuted. Qed.
+
+(** orienting twice, any moments: the second internal result is the first turned by one orthogonal matrix commuting with the spectrum *)
+Theorem C16_orient_twice_up_to_eigenspace : forall eigh1 eigh2 (atoms r1 r2 : list (watom RK)),
+  total_mass RK atoms <> 0 ->
+  let T1 := inertia_tensor RK (centre RK atoms) in
+  let T2 := inertia_tensor RK (centre RK r1) in
+  eigh_ok RK T1 (eigh1 T1) -> eigh_ok RK T2 (eigh2 T2) ->
+  orient_atoms RK eigh1 atoms = Ok r1 -> orient_atoms RK eigh2 r1 = Ok r2 ->
+  let l1 := fst (eigh1 T1) in let l2 := fst (eigh2 T2) in
+  exists Q : mat3 RK,
+    orthogonal Q /\ orthogonal (mtrans Q)
+    /\ mmul (mdiag RK (vx l1) (vy l1) (vz l1)) Q = mmul Q (mdiag RK (vx l2) (vy l2) (vz l2))
+    /\ map fst r2 = map (fun x => vm x Q) (map fst r1).
+Proof. exact orient_twice_degenerate. Qed.
+
+(* the rounding assumption is satisfiable: the identity is within half a unit of its argument *)
+Example C16_ex_around_ok : around_ok (fun x => x).
+Proof. intro x. unfold Rminus. rewrite Rplus_opp_r, Rabs_R0. pose proof noise_pos_R. lra. Qed.
+
 Example C16_ex_mirror_is_improper : orthogonal mirror_z /\ orthogonal (mtrans mirror_z) /\ mdet mirror_z = -1.
 Proof. destruct mirror_z_improper as [A [B C]]. split; [exact A|]. split; [exact B|]. rewrite C. lra. Qed.
 
@@ -222,3 +349,8 @@ Print Assumptions C16_frame_unique.
 Print Assumptions C16_orient_idempotent.
 Print Assumptions C16_frame_unique_up_to_eigenspace.
 Print Assumptions C16_mirror_image_same_frame.
+Print Assumptions C16_generated_store_is_model.
+Print Assumptions C16_stored_sign_convention.
+Print Assumptions C16_stored_first_nonzero_positive.
+Print Assumptions C16_stored_sign_convention_flush_zone_refuted.
+Print Assumptions C16_orient_twice_up_to_eigenspace.
